@@ -29,6 +29,7 @@ def handle (l : Line) : IO Unit := do
   match l.getD "kind" with
   | "defaults" => IO.println (defaultsLine id)
   | "run" =>
+    if (l.get? "crashed").isSome then return   -- the real code died on this case: the harness printed `crash`
     match l.get? "err" with
     | some e =>
       IO.println s!"obs {id} err={e}"
